@@ -276,6 +276,12 @@ def run(tier="quick", seed=0, jobs=16):
         rep.ob(f"L2 {b[:100]}", "refuted", "exhaustive-run", 0, "src/_gettsim/interface.py:546-593", "wiring", b)
         rep.violation(f"wiring:{b.split(':')[1].strip()}", f"parameters partialled to the wrong function / group: {b}", {"obligation": "L2", "detail": b}, True)
     rep.functions.add("src/_gettsim/interface.py:546 _round_and_partial_parameters_to_functions")
+    # L4 rounding parameters are local, too: every marked rule is wrapped with its OWN specification,
+    # whatever rules of other groups are processed before it (contract on _add_rounding_to_functions,
+    # shared with C10 R3c)
+    from props import C10 as c10
+
+    c10.own_spec_obligations(rep)
     bad = bounded(rep, tier, seed)
     kinds = {b["kind"] for b in bad}
     for key, what in rep._locality_frame:
